@@ -202,11 +202,13 @@ class Beam(_Simu):
             return
 
         # Euler-Bernoulli: transverse v/w use Hermitian shape functions (couple
-        # force and moment DOFs); axial / torsion / pure-rotation DOFs use the
-        # Lagrange path from the base class.
+        # force and moment DOFs); axial / torsion use Lagrange ones. "Transverse" and
+        # "axial" refer to the beam axes while the load components are given in the
+        # global axes, so every component goes through the beam's N matrix (whose
+        # rows hold the Lagrange and the Hermitian functions) rotated to the global frame.
         beamStructure = self.structure
         all_unknowns = self.Get_unknowns(problemType)
-        hermitian = set(all_unknowns) - {"x", "rx"}
+        hermitian = set(all_unknowns)
         lagrange_idx = [i for i, u in enumerate(unknowns) if u not in hermitian]
         hermitian_idx = [i for i, u in enumerate(unknowns) if u in hermitian]
 
